@@ -100,6 +100,9 @@ func (t *ImmutableTree) VerifyNonMembership(proof *ics23.CommitmentProof, key []
 func (t *ImmutableTree) createExistenceProof(key []byte) (*ics23.ExistenceProof, error) {
 	t.Hash()
 	path, node, err := t.root.PathToLeaf(t, key, t.version+1)
+	if err != nil {
+		return nil, err
+	}
 	nodeVersion := t.version + 1
 	if node.nodeKey != nil {
 		nodeVersion = node.nodeKey.version
